@@ -18,7 +18,9 @@ RULE = (
     "after the stage was attached, checks on_completed == 1 iff the probe has been deactivated (and the stage was "
     "attached before that), never an on_error, and that a refused re-activation left instrument_count, the installed "
     "code, HandlerCollection.current and every output unchanged.  non-trivial = history with an activation, >= 1 call "
-    "inside and >= 1 call outside the active period, and a stage attached part-way; distinct = distinct op sequences."
+    "inside and >= 1 call outside the active period, and a stage attached part-way; distinct = distinct op sequences.  "
+    "Plus three child interpreters (global_probe / probing().activate() / with-block then global probe) run to their exit: "
+    "every reduction prints exactly one result, for the probes still active after the end of the main program."
 )
 ASSUMPTIONS = [
     "Reference for the event stream of f(x): [{a:x+1,b:x+1},{a:x+1,b:2(x+1)}] for 'f(a) > b' and [{a:x+1}] for 'f > a' (hand-derived from the 5-line program).",
@@ -379,10 +381,77 @@ def run_history(ns, ops, res):
     return problems, info
 
 
+EXIT_CHILD = """
+import sys
+from ptera import probing, global_probe
+
+def f(x):
+    a = x + 1
+    b = a * 2
+    return b
+
+how = sys.argv[1]
+p = global_probe("f > b") if how == "global_probe" else probing("f > b")
+p["b"].max().subscribe(lambda v: print("RESULT max", v))
+p["b"].count().subscribe(lambda v: print("RESULT count", v))
+p["b"].subscribe(lambda v: print("EVENT", v))
+if how == "activate":
+    p.activate()
+elif how == "with-then-global":
+    with p:
+        f(1)
+    q = global_probe("f > a")
+    q["a"].sum().subscribe(lambda v: print("RESULT sum", v))
+for x in (1, 4, 2):
+    f(x)
+print("END-OF-MAIN")
+"""
+
+
+def check_interpreter_exit(spec, res):
+    """A probe that is still active when the interpreter exits is deactivated then: its reductions
+    publish exactly one result, after the last event (child interpreters, one per activation style)."""
+    import subprocess
+    import sys
+
+    path = os.path.join(spec["scratch"], "c17_exit_child.py")
+    with open(path, "w") as fh:
+        fh.write(EXIT_CHILD)
+    repo = os.environ.get("PTERA_REPO", "/repo")
+    env = dict(os.environ, PYTHONPATH=repo + os.pathsep + os.environ.get("PYTHONPATH", ""))
+    expect = {
+        "global_probe": ["EVENT 4", "EVENT 10", "EVENT 6", "END-OF-MAIN", "RESULT count 3", "RESULT max 10"],
+        "activate": ["EVENT 4", "EVENT 10", "EVENT 6", "END-OF-MAIN", "RESULT count 3", "RESULT max 10"],
+        "with-then-global": ["EVENT 4", "RESULT count 1", "RESULT max 4", "END-OF-MAIN", "RESULT sum 10"],
+    }
+    for how, exp in expect.items():
+        res.evaluations += 1
+        case = {"interpreter_exit": how}
+        try:
+            r = subprocess.run([sys.executable, path, how], capture_output=True, text=True, timeout=120, env=env)
+        except subprocess.TimeoutExpired:
+            res.note(f"child interpreter for {how} timed out (inconclusive)") if hasattr(res, "note") else None
+            continue
+        res.deciding += 1
+        lines = [l for l in r.stdout.splitlines() if l.startswith(("EVENT", "RESULT", "END-OF-MAIN"))]
+        main, tail = lines[: lines.index("END-OF-MAIN") + 1] if "END-OF-MAIN" in lines else lines, lines[lines.index("END-OF-MAIN") + 1:] if "END-OF-MAIN" in lines else []
+        emain, etail = exp[: exp.index("END-OF-MAIN") + 1], exp[exp.index("END-OF-MAIN") + 1:]
+        # results published within one completion pass have no specified relative order
+        cut = next((i for i, l in enumerate(main) if l.startswith("RESULT")), len(main))
+        cute = next((i for i, l in enumerate(emain) if l.startswith("RESULT")), len(emain))
+        ok = main[:cut] == emain[:cute] and sorted(main[cut:]) == sorted(emain[cute:]) and sorted(tail) == sorted(etail) and r.returncode == 0
+        if not ok:
+            res.violation(case, {"what": "reductions of a probe still active at interpreter exit", "expected": exp, "got": lines, "returncode": r.returncode, "stderr": r.stderr[-600:]})
+        res.count("interpreter_exit_children")
+        res.nontrivial_case(["exit", how])
+
+
 def run_shard(spec):
     res = ShardResult()
     s0, cnt = spec["range"]
     ns = None
+    if s0 == 0:
+        check_interpreter_exit(spec, res)
     for n, i in enumerate(range(s0, s0 + cnt)):
         if ns is None or n % 50 == 0:
             ns = load(spec["scratch"], f"{s0}_{n}")
@@ -412,6 +481,9 @@ def plan(tier, seed, known):
 
 def replay(case):
     res = ShardResult()
+    if "interpreter_exit" in case:
+        check_interpreter_exit({"scratch": common.scratch_dir("C17r")}, res)
+        return [v for v in res.violations if v["case"].get("interpreter_exit") == case["interpreter_exit"]]
     ns = load(common.scratch_dir("C17r"), "replay")
     for op in case["ops"]:
         print("  op:", op)
